@@ -57,8 +57,9 @@ class Rewriter:
     def norm_wire(self, w):
         """Lengths inside the wire term (size fields, prefixes) in the
         rewriter's own normal form (fixed encoder sizes folded)."""
+        from . import layout as _L
         parts = []
-        for p in parts_of(w):
+        for p in parts_of(_L.canon(w)):
             if isinstance(p, Sym) and p.op == 'pack':
                 parts.append(Sym('pack', p.args[0],
                                  tuple(self.rw(a) for a in p.args[1])))
